@@ -750,8 +750,8 @@ func init() {
 			sets := []int{0, 7, 10, 11}
 			maxLp, maxLn := 4, 3
 			if tier == "thorough" {
-				sets = []int{0, 1, 3, 5, 7, 9, 10, 11, 14, 15, 17, 19, 22, 25}
-				maxLp, maxLn = 6, 4
+				sets = []int{0, 3, 7, 9, 10, 11, 15, 18}
+				maxLp, maxLn = 5, 3
 			}
 			for _, s := range sets {
 				for stage := 0; stage < 4; stage++ {
@@ -765,7 +765,7 @@ func init() {
 		},
 		Bounds: func(tier string) string {
 			if tier == "thorough" {
-				return "14 corpus routers (routes alternately GET/POST, redirect-trailing-slash on, 405 and auto-OPTIONS on) x a write transaction parked at 4 stages (just opened; after Handle+Delete+Truncate; inside Updates; after Txn.Snapshot and Txn.Iter) x every read entry point (ServeHTTP in 4 methods, Lookup, Clone, Reverse, Has, Route, Len, Stats, Iter.All/Methods/Prefix/Routes/Reverse, View with all Txn reads, read-only Txn with Snapshot/Commit/Abort) on every path of 2..6 bytes, host of 0 or 2 bytes and pattern of 3..4 bytes; plus: a second writer does block"
+				return "8 corpus routers (routes alternately GET/POST, redirect-trailing-slash on, 405 and auto-OPTIONS on) x a write transaction parked at 4 stages (just opened; after Handle+Delete+Truncate; inside Updates; after Txn.Snapshot and Txn.Iter) x every read entry point (ServeHTTP in 4 methods, Lookup, Clone, Reverse, Has, Route, Len, Stats, Iter.All/Methods/Prefix/Routes/Reverse, View with all Txn reads, read-only Txn with Snapshot/Commit/Abort) on every path of 2..5 bytes, host of 0 or 2 bytes and pattern of 2..3 bytes; plus: a second writer does block"
 			}
 			return "4 corpus routers (routes alternately GET/POST, redirect-trailing-slash on, 405 and auto-OPTIONS on) x a write transaction parked at 4 stages (just opened; after Handle+Delete+Truncate; inside Updates; after Txn.Snapshot and Txn.Iter) x every read entry point (ServeHTTP in 4 methods, Lookup, Clone, Reverse, Has, Route, Len, Stats, Iter.All/Methods/Prefix/Routes/Reverse, View with all Txn reads, read-only Txn with Snapshot/Commit/Abort) on every path of 2..4 bytes, host of 0 or 2 bytes and pattern of 2..3 bytes; plus: a second writer does block"
 		},
